@@ -184,3 +184,38 @@ fn c06_parent_resolution_two_threads() {
     assert!(st.span_data(&x).unwrap().parent() == Some(&want));
     kani::cover!(t == 1);
 }
+
+macro_rules! parent_kind {
+    ($name:ident, $which:expr) => {
+        /// while a span is entered on the thread: an explicit root gets no parent (0), a contextual span gets the
+        /// entered span (1), an explicit parent overrides the current span (2); the current span is unaffected
+        #[kani::proof]
+        #[kani::unwind(4)]
+        #[kani::stub(std::rt::thread_cleanup, noop)]
+        #[kani::stub(core::fmt::write, fmt_write_stub)]
+        #[kani::stub(std::collections::HashMap::clear, hm_clear)]
+        fn $name() {
+            crate::stack1!(st, false);
+            let a = crate::c05::root(st, any_level_rank());
+            st.enter(&a);
+            assert!(st.current_span().id() == Some(&a));
+            let which: u8 = $which;
+            if which == 0 {
+                let r = crate::c05::root(st, 3);
+                assert!(st.span_data(&r).unwrap().parent().is_none());
+            } else if which == 1 {
+                let c = crate::c05::contextual(st, 3);
+                assert!(st.span_data(&c).unwrap().parent() == Some(&a));
+            } else {
+                let b = crate::c05::root(st, 2);
+                assert!(st.span_data(&b).unwrap().parent().is_none());
+                let x = crate::c05::child(st, &b, 3);
+                assert!(st.span_data(&x).unwrap().parent() == Some(&b));
+            }
+            assert!(st.current_span().id() == Some(&a));
+        }
+    };
+}
+parent_kind!(c06_parent_root_while_entered, 0);
+parent_kind!(c06_parent_contextual_while_entered, 1);
+parent_kind!(c06_parent_explicit_while_entered, 2);
